@@ -187,7 +187,8 @@ func runC11(ctx *harness.Ctx) {
 				good := corpusGood()
 				s = good[rapid.IntRange(0, len(good)-1).Draw(t, "file")].Src
 			case 2:
-				s = "SELECT " + rapid.SampledFrom([]string{"1,", "a, b,", "*, ", "1 AS x ,"}).Draw(t, "tc")
+				s = rapid.SampledFrom([]string{"SELECT 1,", "SELECT a, b,", "SELECT *, ", "SELECT 1 AS x ,", "FROM t |> SELECT a,", "SELECT 1 AS x |> SELECT x, x ,", "FROM t |> WHERE TRUE |> SELECT *,",
+					"SELECT a, FROM t", "SELECT 1 UNION ALL SELECT 2,", "(SELECT 1,)", "SELECT (SELECT 1,)", "FROM t |> SELECT a, |> WHERE a"}).Draw(t, "tc")
 				trailingComma = true
 			default:
 				s = drawGen(t, k, rapid.SampledFrom([]int{1, 2, 2, 3}).Draw(t, "depth")).Text
